@@ -297,7 +297,7 @@ def check_chunks_partition(repo, rep, rid="C12-R6"):
     S.check_protocol(repo, rep, rid, cfgs=S.PARTITION_SESSIONS, sims=("_skip_simulator",))
 
 
-def check_structure(repo, rep):
+def check_structure(repo, rep, tier="quick"):
     from props import sessions as S
     rid = "C12-R1"
     rep.rule(rid, "phase agreement of the two simulators: both simulator functions are interpreted whole on mini sessions (one / two "
@@ -306,7 +306,7 @@ def check_structure(repo, rep):
                   "does exactly what the normal simulator does after that minute [strategies whose candle closed -> prune the route's "
                   "active orders -> flush market orders]; the minutes it leaves to its chunk matcher are minutes after which the normal "
                   "simulator executes no strategy; same epilogue")
-    S.check_same_protocol(repo, rep, rid)
+    S.check_same_protocol(repo, rep, rid, cfgs=S.for_tier(tier))
 
 
 def check_fast_time(repo, rep):
@@ -340,7 +340,7 @@ def run(repo: Repo, rep, tier: str):
     rep.assume("a trading-candle span is modelled by two contiguous 1m candles and one resting order (unambiguous fill); hooks and ledgers are event sinks")
     rep.guarded(check_chunk_step, repo, rep)
     rep.guarded(check_chunks_partition, repo, rep)
-    rep.guarded(check_structure, repo, rep)
+    rep.guarded(check_structure, repo, rep, tier)
     rep.guarded(check_fast_time, repo, rep)
     rep.guarded(check_equivalence, repo, rep, tier)
     rep.guarded(check_fast_orders_and_gaps, repo, rep, tier)
